@@ -181,6 +181,16 @@ pub fn read_back(tr: &mut Tr, rng: &mut SmallRng, rd: &mut TRd, items: &[Item], 
                 }
             }
         }
+        // occasional long skip over the next two or three items at once (wider than a word, often wider than the buffer)
+        if i + 3 < starts.len() && rng.random_range(0..10) == 0 {
+            let k = rng.random_range(2..=3usize);
+            let n = (starts[i + k] - starts[i]) as usize;
+            if n <= 4000 {
+                rd.skip_bits(tr, n);
+                i += k;
+                continue;
+            }
+        }
         // occasional clone that runs ahead independently
         if rng.random_range(0..12) == 0 {
             if let Some(mut c) = rd.try_clone(tr) {
